@@ -318,3 +318,7 @@ class C15(core.Prop):
 
 
 PROP = C15()
+
+# shape families added after the first complete pass (DESIGN 8.6-8.11); appended to the bounds written into the evidence
+BOUNDS_ADDED = '; plus molecules: chiral_and_ez, chlorooctene, hydrogen_marked, thioether_chiral; literal strings incl. > 10 fragments; string-order pipeline.VARIANTS'
+PROP.BOUNDS = {k: v + BOUNDS_ADDED for k, v in PROP.BOUNDS.items()}
